@@ -86,8 +86,8 @@ type psFrame struct {
 	defers []psDefer
 	visits map[*ssa.BasicBlock]int
 	kind   string
-	ancRec bool // an enclosing activation has a recovering deferred closure
-	inDef  bool // runs as (part of) a deferred call
+	ancRec bool       // an enclosing activation has a recovering deferred closure
+	inDef  bool       // runs as (part of) a deferred call
 	stack  *psFnStack // functions active on this path's call stack (recursion guard for inlining)
 }
 
